@@ -12,7 +12,8 @@ Rendered facts (consumed by Model/Supervise.v and Model/Watchdog.v):
   * what each connection_lost variant does (sync: closes the port if exc; asyncio serial:
     shared hook; asyncio TCP: cancels the watchdog, shared hook or the old inline body);
   * Transport.send's OSError branch (closes? reconnects?), Transport.disconnect (fixed shape);
-  * the four connect loops: loop condition (`while transport.protocol` / `while True`),
+  * the four connect loops: loop condition (`while transport.protocol` / `while True`, one
+    flag per loop: sser/stcp/aser/atcp_guard_protocol; any other test raises),
     caught exception classes, what the handlers do (sleep reconnect_timeout and retry /
     retry at once / give up), what the success path does (fixed shapes);
   * SyncTasks.stop / AsyncTasks.stop: disconnect first?, cancel connect_task?
@@ -271,7 +272,7 @@ def serial_facts(f):
         "serial sync_connect success path")
     ac = _find(tree.body, FN, "async_connect", "gateway_serial.py")
     w = _async_outer(ac, "serial async_connect")
-    _need(not _loop_guard(w, "serial async_connect"), "serial async_connect must loop `while True`")
+    f["aser_guard_protocol"] = _loop_guard(w, "serial async_connect")
     t = _try_of_loop(w, "serial async_connect")
     _need(not t.orelse and [_norm(s) for s in _strip(t.body)] == [
         "await serial_asyncio.create_serial_connection(loop, lambda: transport.protocol, transport.gateway.port, transport.gateway.baud)",
@@ -370,7 +371,7 @@ def tcp_facts(f):
 
     ac = _find(tree.body, FN, "async_connect", where)
     w = _async_outer(ac, "tcp async_connect")
-    _need(not _loop_guard(w, "tcp async_connect"), "tcp async_connect must loop `while True`")
+    f["atcp_guard_protocol"] = _loop_guard(w, "tcp async_connect")
     t = _try_of_loop(w, "tcp async_connect")
     _need(not t.orelse and [_norm(s) for s in _strip(t.body)] == [
         "await asyncio.wait_for(loop.create_connection(lambda: transport.protocol, *transport.gateway.server_address), transport.reconnect_timeout)",
@@ -547,6 +548,8 @@ def generate():
     o.append(f"Definition send_err_reconnects : bool := {_b(f['send_err_reconnects'])}.")
     o.append(f"Definition sser_guard_protocol : bool := {_b(f['sser_guard_protocol'])}.")
     o.append(f"Definition stcp_guard_protocol : bool := {_b(f['stcp_guard_protocol'])}.")
+    o.append(f"Definition aser_guard_protocol : bool := {_b(f['aser_guard_protocol'])}.")
+    o.append(f"Definition atcp_guard_protocol : bool := {_b(f['atcp_guard_protocol'])}.")
     for k in ("sser_fail", "stcp_fail", "aser_fail", "atcp_fail"):
         o.append(f"Definition {k} : fail_kind := {f[k]}.")
     o.append(f"Definition sync_stop_disconnects : bool := {_b(f['sync_stop_disconnects'])}.")
